@@ -10,6 +10,7 @@ from .rules import reflect as RF
 from .rules import shape as SH
 from .rules import sig as SG
 from .rules import shape2 as S2
+from .rules import html as H
 
 COMMON_ASSUMPTIONS = [
     "Python semantics on JSON-like operands as tabulated in vstatic/pymodel.py (NaN and >64-bit numbers excluded, as in the properties)",
@@ -38,7 +39,7 @@ def _merge(jobs, keys):
 
 # -- C01 -----------------------------------------------------------------------------------
 def r_raise_c01(ctx):
-    return R.raise_rule("R-RAISE/C01", _merge(R._c01_jobs(ctx), ("filter", "test_all", "data_filter")), R.EXEMPT, floor=40,
+    return R.raise_rule("R-RAISE/C01", _merge(R._c01_jobs(ctx), ("filter", "test_all", "data_filter")), R.EXEMPT, floor=25,
                         what="ConditionLike.filter / test_all / Data.filter")
 
 
@@ -51,17 +52,17 @@ def r_pure_c02(ctx):
 
 # -- C03 -----------------------------------------------------------------------------------
 def r_raise_c03(ctx):
-    return R.raise_rule("R-RAISE/C03", _merge(R._c01_jobs(ctx), ("get_data", "data_get")), R.EXEMPT, floor=40,
+    return R.raise_rule("R-RAISE/C03", _merge(R._c01_jobs(ctx), ("get_data", "data_get")), R.EXEMPT, floor=20,
                         what="DataPath.get_data / Data.get")
 
 
 # -- C07 -----------------------------------------------------------------------------------
 def r_raise_c07_validate(ctx):
-    return R.raise_rule("R-RAISE/C07:Schema.validate", R.validate_merged(ctx), R.EXEMPT, floor=20, what="Schema.validate")
+    return R.raise_rule("R-RAISE/C07:Schema.validate", R.validate_merged(ctx), R.EXEMPT, floor=12, what="Schema.validate")
 
 
 def r_raise_c07_rule_test(ctx):
-    return R.raise_rule("R-RAISE/C07:Rule.test", R.rule_test_merged(ctx), R.EXEMPT, floor=20, what="Rule.test")
+    return R.raise_rule("R-RAISE/C07:Rule.test", R.rule_test_merged(ctx), R.EXEMPT, floor=12, what="Rule.test")
 
 
 # -- C08 -----------------------------------------------------------------------------------
@@ -139,6 +140,12 @@ def r_global_c09(ctx):
     keep = [l for l in labels if l.startswith("conditions.")]
     return P.mutation_rule("R-GLOBAL/C09", [(l, merged[l]) for l in keep], {"global"},
                            "parsing (module-level state: a parse must depend on the spec only)", floor=5)
+
+
+def r_pure_c20(ctx):
+    j = P.misc_jobs(ctx)
+    return P.mutation_rule("R-PURE/C20", [("to_tree", j["to_tree"])], {"schema", "from_path", "global"},
+                           "the documentation tree was requested (the schema, its rules, or module-level state: every call must build a fresh tree)", floor=5)
 
 
 PROPERTIES = {
@@ -241,7 +248,7 @@ PROPERTIES = {
         assumptions=COMMON_ASSUMPTIONS + [SHAPE_ASSUMPTION],
     ),
     "C11": dict(
-        rules=[SG.rule_sig, SG.rule_ladder, SG.rule_tables_c11, SG.rule_conv],
+        rules=[SG.rule_sig, SG.rule_ladder, SG.rule_tables_c11, SG.rule_conv, SH.rule_tt_c02],
         explanation=(
             "Clauses decided: (1) every constructor stores its arguments the way the serialiser reads them (keyword / *args / **kwargs); (2) writer and reader "
             "ladders, evaluated for all constructor signatures, pick branches with compatible JSON shapes; (3) type-name tables are mutual inverses; "
@@ -333,6 +340,19 @@ PROPERTIES = {
     ),
 }
 
+PROPERTIES["C20"] = dict(
+    rules=[H.rule_taint, H.rule_balance, H.rule_defassign, H.rule_order, H.rule_always, r_pure_c20],
+    explanation=(
+        "Clauses decided: (1) in write_tree_html every schema-derived value (nested_tree, _path and everything derived) reaches the returned string only through html.escape "
+        "(taint analysis of every assignment that flows into the output; sanitiser html.escape; recursive call by induction); (2) on every path through the per-child body the "
+        "appended tag sequence is balanced, every other HTML fragment is balanced on its own, the node wrapper opens and closes one div; (3) no possibly-unbound local in the "
+        "type formatter, the HTML writer, to_tree and the always-applicable helpers; (4) the 'required' flag accumulates monotonically (order-independent) and derives from "
+        "always-applicable required_keys conditions, which are collected only under the 'no operator or only and' gate; (5) to_tree stores nothing into the schema (a fresh tree per call).  "
+        "Not decided: each rule appearing exactly once, parent-before-child, flat = nested (properties of dictionaries keyed by run-time strings)."
+    ),
+    assumptions=[SHAPE_ASSUMPTION, "html.escape is the only sanitiser; anchor_root / heading_start_level / show_root_heading / _depth are caller-supplied, not schema text"] + COMMON_ASSUMPTIONS[:2],
+)
+
 NOT_APPLICABLE = {
     "C10": "equality and identical behaviour of two construction routes over an unbounded spec-term space x YAML text x documents: "
            "quantifies over run-time values; only exact-shape matches on ~130 lines of pop-driven branching could be written, which would "
@@ -341,6 +361,12 @@ NOT_APPLICABLE = {
 
 _AI = "static analysis by abstract interpretation (types x origins x taint) over the resolved call graph"
 MANIFEST_TEXT = {
+    "C20": dict(
+        level="Decides, for every tree and every path through the writer: escaping of all schema-derived text (taint), tag balance, absence of unbound locals, order-independence of the required flag, the always-applicable gate, and purity of to_tree. "
+              "Structural faithfulness of the tree (each rule once, parent before child, flat = nested) is not decided.",
+        note="trusts html.escape as sanitiser and the tag tokeniser (tags are literal in the templates); 4 parameters are exempt as caller-supplied",
+        technique="intra-procedural taint analysis with html.escape as sanitiser, tag-balance check over enumerated paths of string templates, definite-assignment analysis, monotone-accumulation rule",
+    ),
     "C03": dict(
         level="Decides the clause the suite never exercises - an inapplicable part matches nothing instead of raising - for all modifier-free paths and documents, plus delegation of the entry points and frontier bookkeeping. "
               "Equality of the selected set with the specification walk is not decided.",
